@@ -11,6 +11,8 @@ void getPair(int *a, double *b);
 long total(const long *values, int n);
 void fill(double *out, int n);
 int count(const char *text, int ntext);
+int compute(int x, int *status);
+void retrim(char *text, int nch);
 enum Color { RED, BLUE = 5 };
 Color next(Color c);
 long widen(short s, unsigned int u, float f, long l);
